@@ -20,6 +20,7 @@ type c18Params struct {
 	Callers int    `json:"callers"`
 	Seed    uint32 `json:"request_id_seed"` // first request ids are seed+1, ...
 	Script  bool   `json:"script"`          // the server's behaviour per response is enumerated
+	Delay   bool   `json:"delay_bounded"`
 }
 
 type c18Call struct {
@@ -171,8 +172,8 @@ func c18Scenarios(thorough bool) []driver.Scenario {
 	var out []driver.Scenario
 	add := func(p c18Params, bound int) {
 		out = append(out, driver.Scenario{
-			Name:   fmt.Sprintf("c18/callers=%d/seed=%d/script=%v", p.Callers, p.Seed, p.Script),
-			Params: p, Cfg: vrt.Config{Horizon: int64(10 * time.Minute), SelectDeviations: true},
+			Name:   fmt.Sprintf("c18/callers=%d/seed=%d/script=%v/delay_bounded=%v", p.Callers, p.Seed, p.Script, p.Delay),
+			Params: p, Cfg: vrt.Config{Horizon: int64(10 * time.Minute), SelectDeviations: true, DelayBounded: p.Delay},
 			Body: c18Body(p), Check: c18Check(p), Bound: bound, NeedsConflict: true,
 		})
 	}
@@ -185,7 +186,8 @@ func c18Scenarios(thorough bool) []driver.Scenario {
 	} else {
 		add(c18Params{Callers: 2, Seed: 4294967293, Script: true}, 0)
 		add(c18Params{Callers: 2, Seed: 1, Script: false}, 1)
-		add(c18Params{Callers: 3, Seed: 4294967293, Script: false}, 1)
+		add(c18Params{Callers: 3, Seed: 4294967293, Script: false, Delay: true}, 2)
+		add(c18Params{Callers: 2, Seed: 1, Script: true, Delay: true}, 1)
 	}
 	return out
 }
